@@ -11,6 +11,7 @@ import Mingus.Model.Machines
 import Mingus.Model.Alias
 import Mingus.Model.Midi
 import Mingus.Model.MidiIn
+import Mingus.Model.Sequencer
 /- Line-protocol dispatch: function name + decoded arguments → observation. -/
 namespace Mingus
 open Val
@@ -329,7 +330,108 @@ def dispatchMidiIn : String → List Val → Option Val
       some (match MidiIn.varbyte 100 0 0 (Midi.toVarbyte n.toNat ++ [85]) with | .ok (v, k, _) => toVal [v, k] | .error e => .err e)
   | _, _ => none
 
+namespace SeqDec
+open Mingus.Seq Mingus.Containers
+def ncOf (v : Val) : Option (Option NC) :=
+  match v with
+  | .nil => some Option.none
+  | .list l => (l.mapM MidiDec.note).map fun ns => some (ns.foldl NC.addNoteObj [])
+  | _ => Option.none
+/-- build the bar as the harness does: place each entry; an entry the bar refuses is appended at the current beat -/
+def bar : Val → Option SBar
+  | .list [.str k, .int c, .int u, .list es] =>
+    match Bar.new k c u with
+    | .error _ => Option.none
+    | .ok b0 =>
+      (es.foldlM (fun (acc : Bar × List SEntry) (e : Val) => do
+        let (v, ns, bpm) ← ((match e with
+          | .list [v, ns] => some (v, ns, Option.none)
+          | .list [v, ns, .int b] => some (v, ns, some b)
+          | _ => Option.none) : Option (Val × Val × Option Int))
+        let q ← ratOf v
+        let content ← ncOf ns
+        let b := acc.1
+        let r := b.place content q
+        let tempo := match content with | Option.none => Option.none | some _ => bpm
+        some (if r.1 then r.2 else b, acc.2 ++ [(⟨b.current, q, content, tempo⟩ : SEntry)])) (b0, [])).map fun (r : Bar × List SEntry) => (⟨b0.length, r.2⟩ : SBar)
+  | _ => Option.none
+def instr : Val → Option Instr
+  | .nil => some .plain
+  | .int i => some (.nr i)
+  | .str s => some (.named s)
+  | _ => Option.none
+def track : Val → Option (Instr × List SBar)
+  | .list [.str _, i, .list bs] => do let ins ← instr i; let l ← bs.mapM bar; pure (ins, l)
+  | _ => Option.none
+def ints : Val → Option (List Int)
+  | .list l => l.mapM fun v => match v with | .int i => some i | _ => Option.none
+  | _ => Option.none
+def evVal : SEv → Val
+  | .play p c v => .list [.str (lit "play"), .int p, .int c, .int v]
+  | .stop p c => .list [.str (lit "stop"), .int p, .int c]
+  | .sleep s => .list [.str (lit "sleep"), ratVal s]
+  | .instr c i b => .list [.str (lit "instr"), .int c, .int i, .int b]
+  | .cc c k v => .list [.str (lit "cc"), .int c, .int k, .int v]
+def retBpm (r : Option Int) : Val := match r with | some b => .int b | Option.none => .str (lit "empty")
+
+/-- one call of the script: (return value, state) -/
+def stepOp (st : St) (op : Val) : Option (Except Err (Val × St)) :=
+  match op with
+  | .list [.str k, .int i] =>
+    if k = lit "attach" then some (.ok (.nil, attach st i.toNat))
+    else if k = lit "detach" then some (.ok (.nil, detach st i.toNat)) else Option.none
+  | .list [.str k, n] =>
+    if k = lit "play_note" then (MidiDec.note n).map fun x => (playNote st x).map fun s => (.bool true, s)
+    else if k = lit "stop_note" then (MidiDec.note n).map fun x => (stopNote st x).map fun s => (.bool true, s)
+    else Option.none
+  | .list [.str k, a, .int b] =>
+    if k = lit "play_nc" then (ncOf a).map fun x => (playNC st x).map fun s => (.bool true, s)
+    else if k = lit "stop_nc" then (ncOf a).map fun x => (stopNC st x).map fun s => (.bool true, s)
+    else if k = lit "modulation" then (match a with | .int ch => some (let r := controlChange st ch 1 b; .ok (.bool r.1, r.2)) | _ => Option.none)
+    else if k = lit "main_volume" then (match a with | .int ch => some (let r := controlChange st ch 7 b; .ok (.bool r.1, r.2)) | _ => Option.none)
+    else Option.none
+  | .list [.str k, a, b, .int c] =>
+    if k = lit "bar" then (bar a).map fun x => (playBar st x c).map fun r => (.int r.2, r.1)
+    else if k = lit "track" then (track a).map fun x => (playTrack st x.2 c).map fun r => (.int r.2, r.1)
+    else if k = lit "bars" then (match a, ints b with
+      | .list bs, some ch => (bs.mapM bar).map fun x => (playBars st x ch c).map fun r => (retBpm r.2, r.1)
+      | _, _ => Option.none)
+    else if k = lit "tracks" then (match a, ints b with
+      | .list ts, some ch => (ts.mapM track).map fun x => (playTracks st x ch c).map fun r => (retBpm r.2, r.1)
+      | _, _ => Option.none)
+    else if k = lit "composition" then (match a with
+      | .list ts => (ts.mapM track).bind fun x =>
+          (match b with | .nil => some Option.none | v => (ints v).map some).map fun ch =>
+            (playComposition st x ch c).map fun (r : St × Option Int) => (retBpm r.2, r.1)
+      | _ => Option.none)
+    else if k = lit "cc" then (match a, b with
+      | .int ch, .int ctl => some (let r := controlChange st ch ctl c; .ok (.bool r.1, r.2))
+      | _, _ => Option.none)
+    else if k = lit "instr" then (match a, b with
+      | .int ch, .int i => some (.ok (.nil, setInstrument st ch i c))
+      | _, _ => Option.none)
+    else Option.none
+  | _ => Option.none
+
+def run (ops : List Val) : Option Val :=
+  let rec go (ops : List Val) (st : St) (rets : List Val) : Option Val :=
+    match ops with
+    | [] => some (.list [.list rets, .list (st.hooks.map evVal), .list ((st.obs.getD 0 []).map evVal),
+                         .list ((st.obs.getD 1 []).map evVal), .list (st.high.map fun (n : Nat) => Val.int n)])
+    | op :: rest =>
+      match stepOp st op with
+      | Option.none => Option.none
+      | some (.error e) => some (.err e)
+      | some (.ok (r, st')) => go rest st' (rets ++ [r])
+  go ops {} []
+end SeqDec
+
+def dispatchSeq : String → List Val → Option Val
+  | "seq.run", [list ops] => SeqDec.run ops
+  | _, _ => none
+
 def dispatch (fn : String) (args : List Val) : Option Val :=
+  (dispatchSeq fn args).orElse fun _ =>
   (dispatchMidiIn fn args).orElse fun _ =>
   (dispatchMidi fn args).orElse fun _ =>
   (dispatchAlias fn args).orElse fun _ =>
